@@ -222,7 +222,9 @@ def sttl_job(job):
     cfg, first_kind = job
     t0 = time.time()
     stats = {"cfg": cfg, "executions": 0, "transitions": 0, "nontrivial": 0, "outcomes": set(), "viol": {},
-             "samples": [], "unfinished": 0, "paths": {}}
+             "samples": [], "unfinished": 0, "paths": {},
+             "reads_issued_exactly_at_store_completion_plus_hard_ttl": 0,
+             "reads_issued_exactly_at_store_completion_plus_soft_ttl": 0}
     alphabet = [tuple(a) for a in cfg["alphabet"]]
     for acc in timelines(cfg["n"], cfg["grid"], alphabet):
         if (acc[0][1], acc[0][2]) != tuple(first_kind):
@@ -238,6 +240,24 @@ def sttl_job(job):
         for r in ex["log"]:
             if r["path"]:
                 stats["paths"][r["path"]] = stats["paths"].get(r["path"], 0) + 1
+        # boundary coverage: reads issued exactly soft_ttl / hard_ttl after an entry was stored (completion
+        # of a put, of a blocking fetch that found a value, or of the refresh a stale hit started)
+        stored = {}
+        for r in ex["log"]:
+            k = r["op"][1]
+            if r["resp"] is None:
+                continue
+            if r["op"][0] == "put" or (r["op"][0] == "get" and r["path"] == "blocking-fetch" and r["res"] is not None):
+                stored.setdefault(k, set()).add(r["resp"])
+            elif r["op"][0] == "get" and r["path"] == "stale-hit":
+                stored.setdefault(k, set()).add(r["inv"] + cfg["L"] * NS)
+        for r in ex["log"]:
+            if r["op"][0] == "get":
+                for s_ in stored.get(r["op"][1], ()):
+                    if r["inv"] - s_ == cfg["hard"] * NS and r["inv"] > s_ - 1:
+                        stats["reads_issued_exactly_at_store_completion_plus_hard_ttl"] += 1
+                    if r["inv"] - s_ == cfg["soft"] * NS:
+                        stats["reads_issued_exactly_at_store_completion_plus_soft_ttl"] += 1
         stats["outcomes"].add(digest([(r["op"], r["res"], r["resp"], r["path"]) for r in ex["log"]]))
         for clause, shape, desc in judge(ex):
             fp = fingerprint(clause, shape)
